@@ -20,6 +20,7 @@ EXPLANATION = (
     "and static flag (inherited, never reset except by CREATE); every world-state mutator reachable from an "
     "instruction is dominated by the static-context test; value transfer debits before it reads the "
     "recipient's balance, with the same amount; returndata semantics. Values of balances are not decided."
+    ' Also evaluated here: fork-copy completeness and the absence of custom copy hooks (C20 R20.1, C14 R14.1): a prank or frame record shared between sibling paths changes the sender a call sees.'
 )
 ASSUMPTIONS = ["deepcopy / dict.copy semantics", "StorageData has no custom __deepcopy__ that shares state (checked)"]
 
